@@ -13,6 +13,7 @@ INVARIANT Balance
 INVARIANT FormulaU
 INVARIANT FormulaV
 INVARIANT EnergyConserved
+INVARIANT ClosedFormTrap
 INVARIANT FreeFlight
 PROPERTY OrderOK
 CHECK_DEADLOCK FALSE
